@@ -837,3 +837,122 @@ Proof.
   pose proof (Utf8.decode1_width_pos b0 rest) as H2. lia.
 Qed.
 End TupleProofs.
+
+(* ================================================================== *)
+(* 5. hasCycle: the number of calls                                     *)
+(* ================================================================== *)
+
+Lemma diamond_length n : length (diamond n) = S n.
+Proof. unfold diamond. rewrite app_length, map_length, seq_length. cbn. lia. Qed.
+
+Lemma diamond_nth_inner n i : (i < n)%nat ->
+  nth_error (diamond n) i = Some (RNode [RComputed (S i); RComputed (S i)]).
+Proof.
+  intro H. unfold diamond. rewrite nth_error_app1 by (rewrite map_length, seq_length; exact H).
+  rewrite nth_error_map. rewrite (nth_error_nth' _ 0%nat) by (rewrite seq_length; exact H).
+  rewrite seq_nth by exact H. reflexivity.
+Qed.
+
+Lemma diamond_nth_last n : nth_error (diamond n) n = Some RThis.
+Proof.
+  unfold diamond. rewrite nth_error_app2 by (rewrite map_length, seq_length; lia).
+  rewrite map_length, seq_length, Nat.sub_diag. reflexivity.
+Qed.
+
+Lemma diamond_calls_pos k : 1 <= diamond_calls k.
+Proof. destruct k; cbn [diamond_calls]; lia. Qed.
+
+Lemma existsb_eqb_false x l : (forall y, In y l -> (y < x)%nat) -> existsb (Nat.eqb x) l = false.
+Proof.
+  intro H. induction l as [|y l IH]; [reflexivity|].
+  cbn [existsb]. rewrite IH by (intros z Hz; apply H; right; exact Hz).
+  assert (y < x)%nat by (apply H; left; reflexivity).
+  replace (Nat.eqb x y) with false by (symmetry; apply Nat.eqb_neq; lia). reflexivity.
+Qed.
+
+(* the walk from e_{n-k}: exactly diamond_calls k calls, for every budget that allows them *)
+Lemma has_cycle_diamond n : forall k, (k <= n)%nat ->
+  forall fuel visited b r,
+    (2 * k + 1 <= fuel)%nat -> diamond_calls k <= b ->
+    (forall y, In y visited -> (y < n - k)%nat) ->
+    nth_error (diamond n) (n - k) = Some r ->
+    has_cycle fuel (diamond n) (n - k) r visited b = (HNo, b - diamond_calls k).
+Proof.
+  induction k as [|k IH]; intros Hk fuel visited b r Hf Hb Hv Hr.
+  - rewrite Nat.sub_0_r in Hr. rewrite diamond_nth_last in Hr. injection Hr as <-.
+    destruct fuel as [|f]; [lia|]. cbn [has_cycle diamond_calls] in *.
+    replace (b =? 0) with false by lia. reflexivity.
+  - assert (Hi : (n - S k < n)%nat) by lia.
+    rewrite (diamond_nth_inner n _ Hi) in Hr. injection Hr as <-.
+    replace (S (n - S k)) with (n - k)%nat by lia.
+    pose proof (diamond_calls_pos k) as Hpos.
+    cbn [diamond_calls] in Hb.
+    destruct fuel as [|f]; [lia|]. cbn [has_cycle].
+    replace (b =? 0) with false by lia.
+    (* the two children are the same computed userset *)
+    assert (Hchild : forall b', 1 + diamond_calls k <= b' ->
+              has_cycle f (diamond n) (n - S k) (RComputed (n - k)) ((n - S k)%nat :: visited) b'
+              = (HNo, b' - 1 - diamond_calls k)).
+    { intros b' Hb'. destruct f as [|f']; [lia|]. cbn [has_cycle].
+      replace (b' =? 0) with false by lia.
+      rewrite existsb_eqb_false.
+      2:{ intros y [<-|[<-|Hy]]; [lia|lia|]. specialize (Hv y Hy). lia. }
+      destruct (nth_error (diamond n) (n - k)) as [r'|] eqn:En.
+      2:{ exfalso. apply nth_error_None in En. rewrite diamond_length in En. lia. }
+      rewrite (IH ltac:(lia) f' _ (b' - 1) r'); [reflexivity | lia | lia | | reflexivity].
+      intros y [<-|[<-|Hy]]; [lia|lia|]. specialize (Hv y Hy). lia. }
+    rewrite Hchild by lia. rewrite Hchild by lia.
+    f_equal. cbn [diamond_calls]. lia.
+Qed.
+
+(* THE FULL-STRENGTH STATEMENT one wants of a validator is that its cost is bounded by a
+   polynomial in the size of the model.  For hasCycle as coded it is false: the valid model
+   [diamond n] has n+1 relations and 3n+1 rewrite nodes, and validating its first relation
+   alone takes 2^(n+2) - 3 calls. *)
+Theorem hascycle_calls_diamond n b : diamond_calls n <= b ->
+  has_cycle (2 * n + 1) (diamond n) 0 (RNode [RComputed 1; RComputed 1]) [] b
+  = (HNo, b - diamond_calls n) \/ n = 0%nat.
+Proof.
+  intro Hb. destruct n as [|n']; [right; reflexivity|left].
+  pose proof (has_cycle_diamond (S n') (S n') (Nat.le_refl _) (2 * S n' + 1) [] b
+                                (RNode [RComputed 1; RComputed 1])) as H.
+  rewrite Nat.sub_diag in H. apply H; [lia | exact Hb | intros y [] |].
+  apply (diamond_nth_inner (S n') 0). lia.
+Qed.
+
+Lemma diamond_calls_closed k : diamond_calls k = 2 ^ (N.of_nat k + 2) - 3.
+Proof.
+  induction k as [|k IH]; [reflexivity|].
+  cbn [diamond_calls]. rewrite IH.
+  replace (N.of_nat (S k) + 2) with (N.succ (N.of_nat k + 2)) by lia.
+  rewrite N.pow_succ_r by lia.
+  assert (4 <= 2 ^ (N.of_nat k + 2)).
+  { rewrite N.pow_add_r. change (2 ^ 2) with 4. pose proof (N.pow_nonzero 2 (N.of_nat k)). lia. }
+  lia.
+Qed.
+
+Theorem diamond_calls_exponential k : 2 ^ N.of_nat k <= diamond_calls k.
+Proof.
+  rewrite diamond_calls_closed, N.pow_add_r. change (2 ^ 2) with 4.
+  pose proof (N.pow_nonzero 2 (N.of_nat k)). lia.
+Qed.
+
+Lemma list_sum_map_const {X} (f : X -> nat) c l : (forall x, f x = c) ->
+  list_sum (map f l) = (c * length l)%nat.
+Proof.
+  intro H. induction l as [|x l IH]; [simpl; lia|].
+  simpl. rewrite IH, H. lia.
+Qed.
+
+Lemma diamond_nodes n : list_sum (map rw_nodes (diamond n)) = (3 * n + 1)%nat.
+Proof.
+  unfold diamond. rewrite map_app, list_sum_app, map_map.
+  rewrite (list_sum_map_const _ 3) by reflexivity. rewrite seq_length. simpl. lia.
+Qed.
+
+(* a concrete witness: 19 relations, 55 rewrite nodes, more than 100000 calls *)
+Theorem model_validation_cost_refuted :
+  exists tab : reltab,
+    length tab = 19%nat /\ list_sum (map rw_nodes tab) = 55%nat /\
+    fst (model_cost 100 [tab] 100000) = HBudget.
+Proof. exists (diamond 18). repeat split; vm_compute; reflexivity. Qed.
